@@ -106,14 +106,20 @@ const Statement * FORStatement::doit(Context& ctx) const
   {
     RT * data = reinterpret_cast<RT*>(ctx.topControlData());
     /* var is type safe, so it can be read/write without care */
-    Integer nxt = *(data->iterator->integer()) + data->step;
-    if ((data->step > 0 && nxt > data->max) ||
-        (data->step < 0 && nxt < data->min))
+    Integer cur = *(data->iterator->integer());
+    /* the control variable must never wrap around: compare the step with the
+     * distance left to the limit, which always fits in 64 bits unsigned */
+    bool done;
+    if (data->step > 0)
+      done = (cur >= data->max || uint64_t(data->step) > uint64_t(data->max) - uint64_t(cur));
+    else
+      done = (cur <= data->min || uint64_t(0) - uint64_t(data->step) > uint64_t(cur) - uint64_t(data->min));
+    if (done)
     {
       ctx.unstackControl();
       return _next;
     }
-    *(data->iterator->integer()) = nxt;
+    *(data->iterator->integer()) = cur + data->step;
   }
 
   /* it should run with the given context, and will throw on error */
